@@ -372,6 +372,70 @@ pub fn run(r: &Report) {
             encs.push(("LockTime", e));
         }
     }
+    // values obtained from the library's CONSTRUCTORS (not assembled field by field): every lock-time constructor over the
+    // boundary arguments, including the textual ones; Default / null / new_fee / new values of the encodable types
+    {
+        use std::str::FromStr;
+        let bounds = [0u32, 1, 499_999_999, 500_000_000, 500_000_001, 1_700_000_000, u32::MAX - 1, u32::MAX];
+        let mut n_ctor = 0u64;
+        for n in bounds {
+            let mut lts: Vec<(&str, elements::LockTime)> = vec![("from_consensus", elements::LockTime::from_consensus(n))];
+            if let Ok(l) = elements::LockTime::from_height(n) {
+                lts.push(("from_height", l));
+            }
+            if let Ok(l) = elements::LockTime::from_time(n) {
+                lts.push(("from_time", l));
+            }
+            if let Ok(h) = elements::locktime::Height::from_consensus(n) {
+                lts.push(("Height::from_consensus", elements::LockTime::from(h)));
+            }
+            if let Ok(t) = elements::locktime::Time::from_consensus(n) {
+                lts.push(("Time::from_consensus", elements::LockTime::from(t)));
+            }
+            if let Ok(h) = elements::locktime::Height::from_str(&n.to_string()) {
+                lts.push(("Height::from_str", elements::LockTime::from(h)));
+            }
+            if let Ok(t) = elements::locktime::Time::from_str(&n.to_string()) {
+                lts.push(("Time::from_str", elements::LockTime::from(t)));
+            }
+            if let Ok(l) = elements::LockTime::from_str(&n.to_string()) {
+                lts.push(("LockTime::from_str", l));
+            }
+            for (_how, l) in lts {
+                n_ctor += 1;
+                value_side(r, "LockTime", &l, None);
+                // inside a transaction as well (the field is encoded through the same impl)
+                let t = elements::Transaction { version: 2, lock_time: l, input: vec![], output: vec![] };
+                value_side(r, "Transaction", &t, None);
+            }
+        }
+        let aid = elements::AssetId::from_byte_array(gen::pat32(3));
+        for v in [0u64, 1, u64::MAX] {
+            n_ctor += 1;
+            value_side(r, "TxOut", &elements::TxOut::new_fee(v, aid), None);
+        }
+        value_side(r, "TxOut", &elements::TxOut::default(), None);
+        value_side(r, "TxIn", &elements::TxIn::default(), None);
+        value_side(r, "TxInWitness", &elements::TxInWitness::default(), None);
+        value_side(r, "TxOutWitness", &elements::TxOutWitness::default(), None);
+        value_side(r, "OutPoint", &elements::OutPoint::default(), None);
+        value_side(r, "OutPoint", &elements::OutPoint::null(), None);
+        value_side(r, "AssetIssuance", &elements::AssetIssuance::default(), None);
+        value_side(r, "AssetIssuance", &elements::AssetIssuance::null(), None);
+        value_side(r, "Script", &elements::Script::new(), None);
+        value_side(r, "Asset", &elements::confidential::Asset::default(), None);
+        value_side(r, "Value", &elements::confidential::Value::default(), None);
+        value_side(r, "Nonce", &elements::confidential::Nonce::default(), None);
+        // a transaction around the default input / output (null outpoint with and without a non-zero txid)
+        for txid_pat in [0usize, 2] {
+            let mut i = elements::TxIn::default();
+            i.previous_output = elements::OutPoint::new(elements::Txid::from_byte_array(if txid_pat == 0 { [0u8; 32] } else { gen::pat32(txid_pat) }), u32::MAX);
+            let t = elements::Transaction { version: 2, lock_time: elements::LockTime::ZERO, input: vec![i.clone(), elements::TxIn::default()], output: vec![elements::TxOut::new_fee(1, aid)] };
+            value_side(r, "TxIn", &i, None);
+            value_side(r, "Transaction", &t, None);
+        }
+        r.set_extra("constructor_values", json!(n_ctor + 16));
+    }
     // dynafed params, headers, blocks
     let fulls = gen::full_params(thorough);
     r.set_extra("full_params_generated", json!(fulls.len()));
